@@ -559,6 +559,17 @@ def check_structural(case):
                     documented = False
             elif st.used != 2 or v != a:
                 documented = False
+        if limit < 2 ** 32:
+            # rejected words are redrawn as often as it takes (here: two rejections in a row)
+            y = case["words"][0] % limit
+            st = Stub([2 ** 32 - 1, limit, y, 0])
+            dr._rng = st
+            v = dr.randint(a, a + w - 1)
+            if not a <= v <= a + w - 1:
+                raise Failure("randint-outside-[a,b]" + ("|a!=0" if a != 0 else ""), observed=dict(got=v),
+                              expected=[a, a + w - 1])
+            if st.used != 3 or v != a + y % w:
+                documented = False
         if documented:
             # equal numbers of accepted preimages per residue for huge w
             W = case["bigw"]
@@ -583,7 +594,7 @@ def check_structural(case):
             # another word-to-value mapping: statistical test on widths with the largest possible modulo bias
             for (W, low, p_uniform) in ((3 * 2 ** 30, 2 ** 30, Fraction(1, 3)), (5 * 2 ** 29, 3 * 2 ** 29, Fraction(3, 5))):
                 dr._rng = Stream(case["res"] * 7919 + W)
-                N = 3000
+                N = 20000
                 k = 0
                 for _ in range(N):
                     v = dr.randint(case["a"], case["a"] + W - 1)
